@@ -123,6 +123,17 @@ def moduleEdits {β : Type} (locsI locsT : List (Pos × Pos)) (rndI : α → Tex
     (sI : Script α) (sT : Script β) : List TextEdit :=
   importEdits locsI rndI sI ++ toplevelEdits locsI locsT rndT sT
 
+/-- `Location::full_document`: `(0,0) – (u32::MAX, u32::MAX)`. -/
+def fullDocument : Pos × Pos := ((0, 0), (4294967295, 4294967295))
+
+/-- `compute_module_diff_edits` (ast_differ.rs:411-425) including the give-up path: when the comment
+stores of the two modules differ (`commentsEqual = false`, :367-371) the whole document is replaced by
+the pretty-printed new module `printedNew`; otherwise the per-node edits of `moduleEdits`. -/
+def moduleDiffEdits {β : Type} (commentsEqual : Bool) (printedNew : Text) (locsI locsT : List (Pos × Pos))
+    (rndI : α → Text) (rndT : β → Text) (sI : Script α) (sT : Script β) : List TextEdit :=
+  if commentsEqual then moduleEdits locsI locsT rndI rndT sI sT
+  else [⟨fullDocument.1, fullDocument.2, printedNew⟩]
+
 /-- `completion::autocomplete_opt`, `ToplevelName` arm (lib.rs:668-714): the completion item for class
 `n` of module `M` carries the auto-import edit unless the name is already available in the document
 (`available` = members of all its imports ++ names of its own toplevels, compared by name only, whatever
